@@ -813,27 +813,21 @@ impl Compiler {
                 });
             }
 
-            // Handle short-circuit operators specially
+            // Handle short-circuit operators specially: when the current value
+            // decides the result, neither the right side nor the store happens
+            let mut skip_store = None;
             match op {
                 AssignmentOp::AndAssign => {
-                    let skip = self.builder.emit_jump_if_false(dst);
+                    skip_store = Some(self.builder.emit_jump_if_false(dst));
                     self.compile_expression(right, dst)?;
-                    self.builder.patch_jump(skip);
                 }
                 AssignmentOp::OrAssign => {
-                    let skip = self.builder.emit_jump_if_true(dst);
+                    skip_store = Some(self.builder.emit_jump_if_true(dst));
                     self.compile_expression(right, dst)?;
-                    self.builder.patch_jump(skip);
                 }
                 AssignmentOp::NullishAssign => {
-                    let not_nullish = self.builder.emit(Op::JumpIfNotNullish {
-                        cond: dst,
-                        target: 0,
-                    });
+                    skip_store = Some(self.builder.emit_jump_if_not_nullish(dst));
                     self.compile_expression(right, dst)?;
-                    self.builder.patch_jump(super::JumpPlaceholder {
-                        instruction_index: not_nullish,
-                    });
                 }
                 _ => {
                     // Regular compound assignment
@@ -855,6 +849,9 @@ impl Compiler {
                     name: name_idx,
                     src: dst,
                 });
+            }
+            if let Some(skip) = skip_store {
+                self.builder.patch_jump(skip);
             }
         }
 
@@ -889,27 +886,21 @@ impl Compiler {
             // Compound assignment - load current value first
             self.emit_get_property(dst, obj_reg, &key_info)?;
 
-            // Handle short-circuit operators
+            // Handle short-circuit operators: no store when the current value
+            // decides the result
+            let mut skip_store = None;
             match op {
                 AssignmentOp::AndAssign => {
-                    let skip = self.builder.emit_jump_if_false(dst);
+                    skip_store = Some(self.builder.emit_jump_if_false(dst));
                     self.compile_expression(right, dst)?;
-                    self.builder.patch_jump(skip);
                 }
                 AssignmentOp::OrAssign => {
-                    let skip = self.builder.emit_jump_if_true(dst);
+                    skip_store = Some(self.builder.emit_jump_if_true(dst));
                     self.compile_expression(right, dst)?;
-                    self.builder.patch_jump(skip);
                 }
                 AssignmentOp::NullishAssign => {
-                    let not_nullish = self.builder.emit(Op::JumpIfNotNullish {
-                        cond: dst,
-                        target: 0,
-                    });
+                    skip_store = Some(self.builder.emit_jump_if_not_nullish(dst));
                     self.compile_expression(right, dst)?;
-                    self.builder.patch_jump(super::JumpPlaceholder {
-                        instruction_index: not_nullish,
-                    });
                 }
                 _ => {
                     let right_reg = self.builder.alloc_register()?;
@@ -923,6 +914,9 @@ impl Compiler {
             }
 
             self.emit_set_property(obj_reg, &key_info, dst)?;
+            if let Some(skip) = skip_store {
+                self.builder.patch_jump(skip);
+            }
         }
 
         // Free key register if computed
